@@ -157,4 +157,15 @@ inline void jdiff(const J &e, const J &a, const std::string &path, std::vector<J
         break;
     }
 }
+// the same, with the cap applied to each top-level section of an object separately (a difference in one section - say the
+// parameters - must not hide the differences of another - say the frames - from the checks that only look at that one)
+inline void jdiffSections(const J &e, const J &a, std::vector<J> &out, size_t maxPerSection) {
+    if (e.t != J::OBJ || a.t != J::OBJ) { jdiff(e, a, "", out, maxPerSection); return; }
+    for (size_t n = 0; n < e.o.size(); ++n) {
+        std::vector<J> d;
+        if (!a.has(e.o[n].first)) d.push_back(J::obj().set("path", e.o[n].first).set("exp", e.o[n].second).set("act", "<missing>"));
+        else jdiff(e.o[n].second, a.at(e.o[n].first), e.o[n].first, d, maxPerSection);
+        for (size_t i = 0; i < d.size(); ++i) out.push_back(d[i]);
+    }
+}
 #endif
